@@ -6,6 +6,7 @@ package main
 import (
 	"go/token"
 	"go/types"
+	"strings"
 
 	"golang.org/x/tools/go/ssa"
 )
@@ -17,6 +18,7 @@ type muxRoute struct {
 	Handler *ssa.Function /* nil when not statically known */
 	Cond    []*ssa.If     /* Ifs whose edge dominates the registration (conditional routes). */
 	Instr   ssa.Instruction
+	Anchor  ssa.Instruction /* for rows of a table: the loop's header test; the registration happens for every row whenever this executes */
 	Pos     token.Pos
 	In      *ssa.Function
 }
@@ -43,6 +45,15 @@ func muxRoutes(p *Prog) []muxRoute {
 			rt := muxRoute{Instr: i, Pos: posOf(i), In: fn}
 			if s, ok := constString(args[0]); ok {
 				rt.Pattern = s
+			} else if rows := tableRoutes(p, args[0], args[1]); 0 != len(rows) {
+				/* Registration in a loop over a literal table of
+				(pattern, handler) rows: one route per row. */
+				for _, row := range rows {
+					row.Instr, row.Pos, row.In = i, posOf(i), fn
+					row.Anchor = loopAnchor(i)
+					out = append(out, row)
+				}
+				return
 			} else {
 				rt.Pattern = "<computed>"
 			}
@@ -68,4 +79,137 @@ func unbound(p *Prog, f *ssa.Function) *ssa.Function {
 		}
 	}
 	return f
+}
+
+// elemFieldOfLiteral: v is the value of field f of the element of a
+// slice/array literal at the loop's index (for _, row := range literal); it
+// returns the literal's backing array and the field number.
+func elemFieldOfLiteral(v ssa.Value) (*ssa.Alloc, int, bool) {
+	u, ok := stripConv(v, false).(*ssa.UnOp)
+	if !ok || token.MUL != u.Op {
+		return nil, 0, false
+	}
+	fa, ok := u.X.(*ssa.FieldAddr)
+	if !ok {
+		return nil, 0, false
+	}
+	base := fa.X
+	if al, ok := base.(*ssa.Alloc); ok {
+		sts := storesTo(al)
+		if 1 != len(sts) {
+			return nil, 0, false
+		}
+		ld, ok := sts[0].Val.(*ssa.UnOp)
+		if !ok || token.MUL != ld.Op {
+			return nil, 0, false
+		}
+		base = ld.X
+	}
+	ia, ok := base.(*ssa.IndexAddr)
+	if !ok {
+		return nil, 0, false
+	}
+	x := ia.X
+	if sl, ok := x.(*ssa.Slice); ok && nil == sl.Low && nil == sl.High {
+		x = sl.X
+	}
+	arr, ok := x.(*ssa.Alloc)
+	if !ok {
+		return nil, 0, false
+	}
+	if _, isArr := arr.Type().Underlying().(*types.Pointer).Elem().Underlying().(*types.Array); !isArr {
+		return nil, 0, false
+	}
+	/* The index is the loop's own counter (not a constant selection). */
+	if _, isConst := ia.Index.(*ssa.Const); isConst {
+		return nil, 0, false
+	}
+	return arr, fa.Field, true
+}
+
+// literalColumn returns, per row of the array literal, the value stored into
+// field f; ok is false when a row is missing or written twice.
+func literalColumn(arr *ssa.Alloc, f int) (map[int64]ssa.Value, bool) {
+	n := arr.Type().Underlying().(*types.Pointer).Elem().Underlying().(*types.Array).Len()
+	out := map[int64]ssa.Value{}
+	ok := true
+	for _, ref := range *arr.Referrers() {
+		ia, isIA := ref.(*ssa.IndexAddr)
+		if !isIA {
+			continue
+		}
+		k, isC := constInt(ia.Index)
+		if !isC {
+			continue
+		}
+		for _, r2 := range *ia.Referrers() {
+			fa, isFA := r2.(*ssa.FieldAddr)
+			if !isFA || fa.Field != f {
+				continue
+			}
+			for _, r3 := range *fa.Referrers() {
+				if st, isSt := r3.(*ssa.Store); isSt && st.Addr == ssa.Value(fa) {
+					if _, dup := out[k]; dup {
+						ok = false
+					}
+					out[k] = st.Val
+				}
+			}
+		}
+	}
+	return out, ok && int64(len(out)) == n
+}
+
+// tableRoutes expands mux.HandleFunc(row.pattern, row.handler) inside a loop
+// over a literal table.
+func tableRoutes(p *Prog, pat, h ssa.Value) []muxRoute {
+	arrP, fP, ok1 := elemFieldOfLiteral(pat)
+	arrH, fH, ok2 := elemFieldOfLiteral(h)
+	if !ok1 || !ok2 || arrP != arrH {
+		return nil
+	}
+	pats, okP := literalColumn(arrP, fP)
+	hs, okH := literalColumn(arrH, fH)
+	if !okP || !okH {
+		return nil
+	}
+	var out []muxRoute
+	for k := int64(0); k < int64(len(pats)); k++ {
+		s, ok := constString(pats[k])
+		if !ok {
+			return nil
+		}
+		rt := muxRoute{Pattern: s}
+		if f, _ := closureOf(stripConv(hs[k], false)); nil != f {
+			rt.Handler = unbound(p, f)
+		}
+		out = append(out, rt)
+	}
+	return out
+}
+
+// loopAnchor: reg sits in the body of a range loop and is executed on every
+// iteration (every path from the body's entry back to the loop header passes
+// it); returns the header's terminating If, or nil.
+func loopAnchor(reg ssa.Instruction) ssa.Instruction {
+	fn := reg.Parent()
+	for _, h := range fn.Blocks {
+		ifi := blockIf(h)
+		if nil == ifi || 0 == len(h.Instrs) {
+			continue
+		}
+		if _, isPhi := h.Instrs[0].(*ssa.Phi); !isPhi || !strings.HasPrefix(h.Comment, "rangeindex") {
+			continue
+		}
+		body := h.Succs[0]
+		if !body.Dominates(reg.Block()) && body != reg.Block() {
+			continue
+		}
+		/* From the body's entry, the header is not reachable without reg. */
+		skip := reachQ{From: Loc{body, -1}, Target: func(i ssa.Instruction) bool { return i == ssa.Instruction(ifi) || isReturn(i) }, Block: func(i ssa.Instruction) bool { return i == reg }}.run()
+		if nil == skip {
+			return ifi
+		}
+	}
+	return nil
 }
